@@ -33,7 +33,7 @@ pub const DATA: i64 = PAGE * 3;
 /// offsets below 16384).
 pub const WR: usize = 32;
 /// Bytes modelled of the data region.
-pub const WD: usize = 192;
+pub const WD: usize = 3 * 64;
 /// Largest single pwrite that is recorded.
 pub const MAXW: usize = 48;
 /// Trace capacity (state-changing calls).
@@ -44,22 +44,49 @@ pub const K_WRITE: u8 = 2;
 pub const K_FSYNC: u8 = 3;
 pub const K_FDATASYNC: u8 = 4;
 
+/// Chunk size of the data window.  CBMC keeps arrays of at most 64 elements as individual
+/// symbols (constant propagation per element); a single 192-byte array loses that (measured: the
+/// length prefix read back from it was no longer a constant for symbolic execution).
+pub const CH: usize = 64;
+
 #[derive(Clone, Copy)]
 pub struct Img {
     /// File size (`st_size`); reads at or past it return 0 bytes.
     pub size: i64,
+    /// A lower bound of `size` (invariant `size_lo <= size`, asserted by the harness for every
+    /// image it builds).  Semantically redundant: `pread` tests `end <= size_lo || end <= size`,
+    /// which equals `end <= size`.  It exists because `size` of a crash image is a symbolic
+    /// expression (a preallocation may or may not have become durable) while `size_lo` is a
+    /// constant, so that symbolic execution can decide the test for reads into the first chunk.
+    pub size_lo: i64,
     pub a: [u8; WR],
     pub b: [u8; WR],
-    pub d: [u8; WD],
+    pub d0: [u8; CH],
+    pub d1: [u8; CH],
+    pub d2: [u8; CH],
 }
 
 impl Img {
     pub const fn empty() -> Self {
         Self {
             size: 0,
+            size_lo: 0,
             a: [0; WR],
             b: [0; WR],
-            d: [0; WD],
+            d0: [0; CH],
+            d1: [0; CH],
+            d2: [0; CH],
+        }
+    }
+
+    /// Byte `x` of the data window.
+    pub fn data(&self, x: usize) -> u8 {
+        if x < CH {
+            self.d0[x]
+        } else if x < 2 * CH {
+            self.d1[x - CH]
+        } else {
+            self.d2[x - 2 * CH]
         }
     }
 
@@ -70,7 +97,7 @@ impl Img {
         } else if o >= ROOT_B && o < ROOT_B + WR as i64 {
             self.b[(o - ROOT_B) as usize]
         } else if o >= DATA && o < DATA + WD as i64 {
-            self.d[(o - DATA) as usize]
+            self.data((o - DATA) as usize)
         } else {
             0
         }
@@ -85,7 +112,14 @@ impl Img {
             self.b[(o - ROOT_B) as usize] = v;
             true
         } else if o >= DATA && o < DATA + WD as i64 {
-            self.d[(o - DATA) as usize] = v;
+            let x = (o - DATA) as usize;
+            if x < CH {
+                self.d0[x] = v;
+            } else if x < 2 * CH {
+                self.d1[x - CH] = v;
+            } else {
+                self.d2[x - 2 * CH] = v;
+            }
             true
         } else {
             false
@@ -188,6 +222,7 @@ pub fn fallocate(_fd: impl AsFd, mode: c_int, off: i64, len: i64) -> Result<(), 
     };
     if end > fs.vol.size {
         fs.vol.size = end;
+        fs.vol.size_lo = end;
     }
     let mut ev = Ev::none();
     ev.kind = K_FALLOC;
@@ -198,23 +233,37 @@ pub fn fallocate(_fd: impl AsFd, mode: c_int, off: i64, len: i64) -> Result<(), 
     Ok(())
 }
 
-/// See `pread(2)`: as many bytes as lie below the file size.
+/// See `pread(2)`.  A read that starts at or after the end of the file returns 0 bytes.  A read
+/// that starts below the end returns ALL requested bytes; if such a read would cross the end of
+/// the file (where the real call returns only the available prefix) the model is left and
+/// `out_of_model` is set — every harness asserts that this flag is still clear at its end, so a
+/// crossing read shows up as a failed check instead of being silently mis-modelled.
+/// (Returning exactly `buf.len()` lets symbolic execution see that `File::read_exact`'s retry loop
+/// ends after one round even when the length is a symbolic value read from a crash image.)
 pub fn pread(_fd: impl AsFd, buf: &mut [u8], off: i64) -> Result<usize, Errno> {
     let fs = fs();
     fs.reads += 1;
     if off < 0 {
         return Err(einval());
     }
+    // `off >= size`, decided on the constant lower bound where possible (size_lo <= size).
+    if !(off < fs.vol.size_lo) && off >= fs.vol.size {
+        return Ok(0);
+    }
+    let len = buf.len();
+    let crossing = match off.checked_add(len as i64) {
+        Some(end) => end > fs.vol.size,
+        None => true,
+    };
+    if crossing {
+        fs.out_of_model = true;
+    }
     let mut i = 0usize;
-    while i < buf.len() {
-        let o = off + i as i64;
-        if o >= fs.vol.size {
-            break;
-        }
-        buf[i] = fs.vol.get(o);
+    while i < len {
+        buf[i] = fs.vol.get(off + i as i64);
         i += 1;
     }
-    Ok(i)
+    Ok(len)
 }
 
 /// See `pwrite(2)`: always writes the whole buffer (short writes / EINTR are not modelled).
